@@ -327,6 +327,17 @@ def loop_locals(ctx, P, iters):
     ctx.floor("local reads in the main loops", n, 10)
 
 
+def _returns_lambdas(view, call):
+    """call is `self.helper(...)` of a newly extracted helper whose every return gives a lambda (the counter chosen by `method`)"""
+    if not (isinstance(call, ast.Call) and isinstance(call.func, ast.Attribute) and unparse(call.func.value) == "self" and call.func.attr not in rules.ANCHOR_METHODS):
+        return False
+    r = view.resolve(call.func.attr)
+    if r is None:
+        return False
+    rets = [x for x in ast.walk(r[1]) if isinstance(x, ast.Return)]
+    return bool(rets) and all(isinstance(x.value, ast.Lambda) for x in rets)
+
+
 def loop_guards(ctx, P, iters):
     ob = ctx.ob("LOOPG", "simulate_until_max_time loops `while clock < T` (strict); simulate_until_max_customers `while count() < n`; one event per iteration, clock advanced after it")
     sim = P.view("Simulation")
@@ -336,10 +347,15 @@ def loop_guards(ctx, P, iters):
         if len(loops) != 1:
             ctx.unrecognised("LOOPG: expected one while loop in %s" % m)
             continue
-        f = guards.norm(loops[0].test, unparse)
+        test = rules.clone(loops[0].test)
+        class _NoWalrus(ast.NodeTransformer):       # `(before := count()) < n` tests `count() < n`
+            def visit_NamedExpr(self, n):
+                return self.visit(n.value)
+        test = _NoWalrus().visit(test)
+        f = guards.norm(test, unparse)
         ob.ok(m, "%s: while %s" % (m, guards.show(f)))
         if m == "simulate_until_max_customers":
-            lam = set(unparse(x.targets[0]) for x in ast.walk(fn) if isinstance(x, ast.Assign) and isinstance(x.value, ast.Lambda))
+            lam = set(unparse(x.targets[0]) for x in ast.walk(fn) if isinstance(x, ast.Assign) and (isinstance(x.value, ast.Lambda) or _returns_lambdas(sim, x.value)))
             if len(lam) == 1:
                 want = ("lt", "%s()" % lam.pop(), "max_customers")
         if f != want:
@@ -377,10 +393,11 @@ def counter_table(ctx, P):
     got = {}
     raising_default = False
     for meth in list(want) + ["<other>"]:
-        w = Walker(P, sim, keep=lambda e: (e.kind == "assign" and e.d.get("local") and isinstance(e.d.get("value_node"), ast.Lambda)) or e.kind in ("raise", "iter", "loopexit"),
+        w = Walker(P, sim, keep=lambda e: (e.kind == "assign" and e.d.get("local") and isinstance(e.d.get("value_node"), ast.Lambda)) or e.kind in ("raise", "iter", "loopexit")
+                   or (e.kind == "return" and isinstance(e.d.get("value_node"), ast.Lambda) and e.frame.func is not fn),
                    literal_args={"method": repr(meth)}, inline=rules.new_helper, loop_iters=(0,))
         for st in w.paths_of(cls, fn):
-            lam = [e for e in st.events if e.kind == "assign"]
+            lam = [e for e in st.events if e.kind in ("assign", "return")]
             if st.status == "raise":
                 if meth == "<other>":
                     raising_default = True
@@ -388,7 +405,7 @@ def counter_table(ctx, P):
             if meth == "<other>":
                 raising_default = False
                 break
-            got[meth] = unparse(rules.inline_locals(fn, lam[0].d["value_node"].body)) if len(lam) == 1 else "%d counters selected" % len(lam)
+            got[meth] = unparse(rules.inline_locals(lam[0].frame.func, lam[0].d["value_node"].body)) if len(lam) == 1 else "%d counters selected" % len(lam)
     for k, v in want.items():
         ob.ok(k, "%s -> %s" % (k, got.get(k)))
         if got.get(k) != v:
